@@ -79,8 +79,8 @@ N_CACHE_SHARDS = 2
 
 
 def shards(tier, seed):
-    n_elev = 90 if tier == "quick" else 900
-    n_cache = 12 if tier == "quick" else 160
+    n_elev = 90 if tier == "quick" else 2000
+    n_cache = 12 if tier == "quick" else 300
     out = []
     for i in range(N_ELEV_SHARDS):
         out.append({"kind": "elev", "seed": seed, "shard": i, "n": n_elev})
